@@ -66,6 +66,9 @@ func VerifC18LexPositions() {
 
 var c18Seps = []string{" ", "\n", " # c\n", " /* c */ ", " /* c */\n", "\n/* c\n c */\n", " /* c\n */ ", "\n\n", "\t\n  ", " # a # b\n", "/**/", "\n# c\n# d\n", "/*\n*/", " /*\n c */ ", "/*\n\n*/\n", "/*\r\n*/", "\r\n"}
 
+// values of the first statement: numbers, quoted strings, raw strings spanning lines (also with a backslash at the end of a line)
+var c18Vals = []string{"1", "\"s\"", "r\"x\"", "r\"x\ny\"", "r\"x\\\ny\"", "r'x\\\n'", "r\"a\n\nb\\\\\nc\"", "'x\\\\'"}
+
 func c18Newlines(s string) int {
 	n := 0
 	for i := 0; i < len(s); i++ {
@@ -83,16 +86,29 @@ func c18Newlines(s string) int {
 func VerifC18Separation() {
 	s1 := c18Seps[zz.Choice("sep1", len(c18Seps))]
 	s2 := c18Seps[zz.Choice("sep2", len(c18Seps))]
-	src := "a := 1" + s1 + "b := 2"
+	v1 := "1"
+	if zz.Param("VALUES", 0) == 1 {
+		v1 = c18Vals[zz.Choice("val1", len(c18Vals))]
+	}
+	src := "a := " + v1 + s1 + "b := 2"
 	ast, err := Parse("t", src)
 	zz.Reach("parsed")
 	if c18Newlines(s1) > 0 {
 		zz.Assert(err == nil && ast != nil && ast.Name == NodeSTATEMENTS && len(ast.Children) == 2, "C18.newline-separates-statements-comments-do-not-matter")
-	} else {
+	} else if c18Newlines(v1) == 0 {
 		zz.Assert(err != nil, "C18.no-newline-no-separation")
 	}
+	// every token of the text carries the position of its first character
+	for _, t := range LexToList("t", src) {
+		if t.ID == TokenEOF || t.ID == TokenError {
+			continue
+		}
+		line, col := c18RefLineCol([]byte(src), t.Pos)
+		zz.Known("C18-hash-comment-column", "C18.pos", c18HashOnPrevLine([]byte(src), t.Pos))
+		zz.Assert(t.Lline == line && t.Lpos == col, "C18.pos")
+	}
 	// planted offending token ')' after a second arrangement
-	prefix := "a := 1" + s1 + "b := 2" + s2
+	prefix := "a := " + v1 + s1 + "b := 2" + s2
 	src2 := prefix + ")"
 	_, err2 := Parse("t", src2)
 	zz.Assert(err2 != nil, "C18.offending-token-rejected")
